@@ -9,6 +9,7 @@ import operator
 import os
 
 from snakeoil.chksum import get_handler
+from snakeoil.fileutils import AtomicWriteFile
 from snakeoil.mappings import ImmutableDict
 
 from .. import gpg
@@ -185,8 +186,15 @@ class Manifest:
         except OSError:
             pass
 
-        with open(self.path, "w") as handle:
+        # replace the file in one step: an interrupted write must not leave a
+        # truncated Manifest behind
+        handle = AtomicWriteFile(self.path)
+        try:
             handle.write(data)
+            handle.close()
+        except BaseException:
+            handle.discard()
+            raise
         self._sourced = False
         return True
 
